@@ -138,6 +138,19 @@ static struct mt_ext *exts[16];
 static int nexts;
 void mt_register_ext(struct mt_ext *e) { exts[nexts++] = e; }
 
+/* the library's malloc() calls: the block comes back filled with the byte pattern of the scenario (cfg fill=N; default: the sanitizer's
+ * 0xbe), so that a field the library forgets to initialise reads as all-ones / as 1 / ... instead of whatever the allocator left */
+static int cfg_fill = -1;
+void *mt_malloc_filled(size_t n);
+void *__wrap_malloc(size_t n) { return mt_malloc_filled(n); }
+void *mt_malloc_filled(size_t n)
+{
+	void *p = malloc(n);	/* only the library's references are redirected here */
+	if (p != NULL && cfg_fill >= 0)
+		memset(p, cfg_fill, n);
+	return p;
+}
+
 static void deliver_pending_signals(void);
 
 static void switch_to(int next)
@@ -610,6 +623,8 @@ static struct stim STM[1024];
 static int nst;
 
 static int cfg_nopwait2, cfg_notimerfd, cfg_noeventfd2, cfg_noeventfd;
+static int sec_plain[64];
+static int cfg_closefd0;
 static unsigned long long cfg_eventfd_emfile;	/* bit k-1 set: the k-th eventfd/eventfd2 call that reaches the kernel fails with EMFILE */
 static int eventfd_calls;
 
@@ -1084,6 +1099,21 @@ static void run_section(int sec)
 {
 	int li;
 
+	if (sec_plain[sec]) {
+		mt_log("PLAIN\n");
+		for (li = 0; li < sec_n[sec]; li++) {
+			char work[MT_MAXLINE];
+			char *save = NULL, *op;
+			strcpy(work, sec_lines[sec][li]);
+			op = strtok_r(work, " \t\n", &save);
+			if (!strcmp(op, "do"))
+				run_actions(save);
+		}
+		mt_log("PLAIN-END\n");
+		return;
+	}
+	if (cfg_closefd0 && sec == 0)
+		close(0);	/* the process runs with stdin closed: the next descriptor the library creates is number 0 */
 	iv_init();
 	mt_log("INIT method=%s\n", iv_poll_method_name());
 	for (li = 0; li < sec_n[sec]; li++) {
@@ -1173,7 +1203,8 @@ int main(int argc, char **argv)
 				else if (!strcmp(c, "noeventfd2")) cfg_noeventfd2 = ok = 1;
 				else if (!strcmp(c, "noeventfd")) cfg_noeventfd = ok = 1;
 				else if (!strncmp(c, "eventfd-emfile=", 15)) { int k = atoi(c + 15); if (k >= 1 && k <= 64) cfg_eventfd_emfile |= 1ULL << (k - 1); ok = 1; }
-				else if (!strncmp(c, "seed=", 5)) { rng_state = 88172645463325252ULL ^ (strtoull(c + 5, NULL, 10) * 2654435761ULL); if (!rng_state) rng_state = 1; ok = 1; }
+				else if (!strncmp(c, "seed=", 5)) { if (cfg_fill < 0) { static const int pat[4] = { 0xff, -1, 0x01, 0xa5 }; cfg_fill = pat[strtoull(c + 5, NULL, 10) & 3]; }
+					rng_state = 88172645463325252ULL ^ (strtoull(c + 5, NULL, 10) * 2654435761ULL); if (!rng_state) rng_state = 1; ok = 1; }
 				else if (!strncmp(c, "stay=", 5)) { stay_pct = atoi(c + 5); ok = 1; }
 				else if (!strncmp(c, "sched=", 6)) {
 					const char *q = c + 6;
@@ -1186,6 +1217,8 @@ int main(int argc, char **argv)
 						sched_trace = fopen(getenv("IVY_SCHED_TRACE"), "w");
 					ok = 1;
 				}
+				else if (!strcmp(c, "closefd0")) cfg_closefd0 = ok = 1;
+				else if (!strncmp(c, "fill=", 5)) { cfg_fill = atoi(c + 5) & 0xff; ok = 1; }
 				else if (!strncmp(c, "waitlimit=", 10)) { wait_limit = atoi(c + 10); ok = 1; }
 				else if (!strncmp(c, "cblimit=", 8)) { cb_limit = atoi(c + 8); ok = 1; }
 				else if (!strncmp(c, "steplimit=", 10)) { step_limit = atoi(c + 10); ok = 1; }
@@ -1195,9 +1228,13 @@ int main(int argc, char **argv)
 				if (!ok) { printf("HARNESS-ERROR cfg %s\n", c); mt_finish(NULL); }
 			}
 		} else if (!strcmp(op, "thread")) {
+			char *pl;
 			cursec = atoi(strtok_r(NULL, " \t\n", &save));
 			if (cursec >= MAXSEC) mt_finish("HARNESS-ERROR sections");
 			if (cursec >= nsec) nsec = cursec + 1;
+			/* `thread k plain`: a thread of the program that never calls iv_init (no ivykis state); it can still receive signals,
+			 * post events and so on */
+			if ((pl = strtok_r(NULL, " \t\n", &save)) != NULL && !strcmp(pl, "plain")) sec_plain[cursec] = 1;
 		} else if (!strcmp(op, "on")) {
 			char *who = strtok_r(NULL, " \t\n", &save);
 			char *nth = strtok_r(NULL, " \t\n", &save);
